@@ -5,7 +5,7 @@ import ast
 
 from sa.astx import call_name, dotted, src, walk_local
 from sa.selftest import Mutant, Silent
-from sa.props._lib_d import Views
+from sa.props._lib_d import Views, resolve_locals
 from sa.source import class_assigns
 from sa.props._lib_d import (NONNULL, call_nodes, calls_with, const_value_is, covers, handler_names, implied,
                              local_def, must_pass_under, path_under, peval, reach_under, self_assigns, succ_of,
@@ -184,6 +184,19 @@ def _check_dispatch(ctx, rel, qual, q, minimum):
     return f, g, sites, disc, vars_
 
 
+def _errno_cases(g, call_node):
+    """OSError handlers attached to ``call_node`` and the facts describing which errno was raised: ([handler ids], facts(errno))"""
+    hs = [h for h in succ_of(g, call_node, "exc") if g.node(h).kind == "handler" and g.node(h).ast.name]
+    def facts(code, hs=hs):
+        out = {"EWOULDBLOCK": 11, "ENOBUFS": 105, "EINTR": 4, "EAGAIN": 11}
+        for h in hs:
+            nm = g.node(h).ast.name
+            out[f"{nm}.args[0]"] = code
+            out[f"{nm}.errno"] = code
+        return out
+    return hs, facts
+
+
 def check(ctx):
     # ---- (1) K14: the dispatch function of each reactor -------------------------------------------------------------
     per = {}
@@ -285,32 +298,64 @@ def check(ctx):
                 and src(st.value) == "self._doReadOrWrite"} | {"self._doReadOrWrite"}
         fires = g.find(lambda x: isinstance(x, ast.Call) and any(src(a) in drdw for a in x.args) or (isinstance(x, ast.Call) and src(x.func) in drdw))
         ctx.need(fires, "dispatch through _doReadOrWrite in doSelect")
-        for n in fires:
-            c = ctx.construct(q, g.node(n).ast)
-            ctx.check(implied(g, n, [{"selectable not in fdset": False}, {"selectable in fdset": True}][:1], [{"selectable not in fdset": True}])
-                      or implied(g, n, [{"selectable in fdset": True}], [{"selectable in fdset": False}]),
-                      "loop/still-registered", c,
-                      "a ready selectable is dispatched without re-checking that it is still registered: a connection disconnected by an "
-                      "earlier handler in the same iteration gets doRead/doWrite (and a second loss report) after connectionLost")
-        # (ready list, method, fd set) rows
+        # every dispatch is a triple (ready list, method, registration set): from a table-driven loop or written out; the selectable must
+        # still be a member of that set when it is dispatched
         sel_assign = [st for st in walk_local(f) if isinstance(st, ast.Assign) and isinstance(st.value, ast.Call) and call_name(st.value) == "_select"]
         ctx.need(sel_assign, "r, w, ignored = _select(...) in doSelect")
-        st = sel_assign[0]
-        names = [e.id if isinstance(e, ast.Name) else None for e in st.targets[0].elts] if isinstance(st.targets[0], ast.Tuple) else []
-        sargs = [src(a) for a in st.value.args]
-        rows = []
-        for loop in (x for x in walk_local(f) if isinstance(x, ast.For) and isinstance(x.iter, ast.Tuple)):
+        st0 = sel_assign[0]
+        names = [e.id if isinstance(e, ast.Name) else None for e in st0.targets[0].elts] if isinstance(st0.targets[0], ast.Tuple) else []
+        sargs = [src(resolve_locals(f, a)) for a in st0.value.args]
+        rows = {}
+        for loop in (x for x in walk_local(f) if isinstance(x, ast.For) and isinstance(x.iter, ast.Tuple) and isinstance(x.target, ast.Tuple)):
+            tn = [src(e) for e in loop.target.elts]
             for row in loop.iter.elts:
-                if isinstance(row, ast.Tuple) and len(row.elts) == 3:
-                    rows.append((row, [src(e) for e in row.elts]))
-        ctx.check(len(rows) == 2, "loop/select-rows", q, f"doSelect dispatches {len(rows)} (list, method, set) rows, two are required (read and write)")
-        for row, (lst, meth, fdset) in rows:
-            pos = names.index(lst) if lst in names else -1
-            want = {0: ("'doRead'", "self._reads"), 1: ("'doWrite'", "self._writes")}.get(pos)
-            ok = want is not None and (meth, fdset) == want and pos < len(sargs) and sargs[pos] == fdset
-            ctx.check(ok, "loop/select-rows", ctx.construct(q, row),
-                      "the ready list, the method name and the registration set of a dispatch row do not belong together "
-                      "(e.g. readable descriptors get doWrite, or membership is checked in the wrong set)")
+                if isinstance(row, ast.Tuple) and len(row.elts) == len(tn):
+                    rows.setdefault(id(loop), []).append(dict(zip(tn, [src(resolve_locals(f, e)) for e in row.elts])))
+
+        def binding_sets(call_node):
+            """the possible {local name: expression text} environments in which this dispatch runs (one per table row, or one empty)"""
+            p_ = getattr(call_node, "_parent", None)
+            while p_ is not None and p_ is not f:
+                if id(p_) in rows:
+                    return rows[id(p_)]
+                p_ = getattr(p_, "_parent", None)
+            return [{}]
+
+        triples = []
+        for n in fires:
+            node = g.node(n).ast
+            call = next(x for x in walk_local(node) if isinstance(x, ast.Call) and (any(src(a) in drdw for a in x.args) or src(x.func) in drdw))
+            args = [a for a in call.args if src(a) not in drdw]
+            sel_var = src(args[0]) if args else "selectable"
+            meth_arg = args[-1] if args else None
+            # membership guards dominating the dispatch
+            member_of = []
+            for t, lab in g.edge_guards(n):
+                e = resolve_locals(f, g.node(t).ast)
+                if isinstance(e, ast.Compare) and len(e.ops) == 1 and isinstance(e.ops[0], (ast.In, ast.NotIn)) and src(e.left) == sel_var:
+                    if (isinstance(e.ops[0], ast.In)) == (lab == "T"):
+                        member_of.append(src(e.comparators[0]))
+            c = ctx.construct(q, node)
+            ctx.check(bool(member_of), "loop/still-registered", c,
+                      "a ready selectable is dispatched without re-checking that it is still registered: a connection disconnected by an "
+                      "earlier handler in the same iteration gets doRead/doWrite (and a second loss report) after connectionLost")
+            # the for loop that produces the selectable
+            loopn = getattr(call, "_parent", None)
+            while loopn is not None and not (isinstance(loopn, ast.For) and src(loopn.target) == sel_var):
+                loopn = getattr(loopn, "_parent", None)
+            for env in binding_sets(call):
+                sub = lambda txt: env.get(txt, txt)      # noqa: E731
+                triples.append((sub(src(loopn.iter)) if loopn is not None else "?", sub(src(meth_arg)) if meth_arg is not None else "?",
+                                sorted({sub(m) for m in member_of}), c))
+        want = []
+        for pos, (meth, fdset) in enumerate((("'doRead'", "self._reads"), ("'doWrite'", "self._writes"))):
+            if pos < len(names) and names[pos] and pos < len(sargs) and sargs[pos] == fdset:
+                want.append((names[pos], meth, [fdset]))
+        ctx.check(len(want) == 2, "loop/select-rows", q + " | <select() call>", "select() is not given (self._reads, self._writes) with the ready lists bound in that order")
+        got = sorted((a_, b_, c_) for a_, b_, c_, _ in triples)
+        ctx.check(got == sorted(want), "loop/select-rows", q + " | <dispatch table>",
+                  f"the dispatches are {got}; required: readable descriptors get 'doRead' and are looked up in self._reads, writable ones get "
+                  "'doWrite' and self._writes (ready list, method name and registration set must belong together)")
 
     with ctx.section("doPoll loops"):
         # ---- doPoll loops
@@ -323,7 +368,7 @@ def check(ctx):
             fires = g.find(lambda x: isinstance(x, ast.Call) and (any(src(a) in drdw for a in x.args) or src(x.func) in drdw))
             ctx.need(fires, f"dispatch through _doReadOrWrite in {cls}.doPoll")
             look = [n.id for n in g.nodes if n.kind == "stmt" and g.reachable(n.id) and isinstance(n.ast, ast.Assign)
-                    and src(n.ast.value) == "self._selectables[fd]"]
+                    and src(resolve_locals(f, n.ast.value)) == "self._selectables[fd]"]
             for n in fires:
                 c = ctx.construct(q, g.node(n).ast)
                 w = g.must_precede(look, [n])
@@ -333,7 +378,9 @@ def check(ctx):
                 for l in look:
                     hs = [h for h in succ_of(g, l, "exc") if g.node(h).kind == "handler" and "KeyError" in handler_names(g.node(h).ast)]
                     bad = [h for h in hs if g.path([h], [n], avoid=look, edge_ok=lambda a, b, lab: lab != "exc")]
-                    ctx.check(bool(hs) and not bad, "loop/unregistered-skipped", ctx.construct(q, g.node(l).ast),
+                    guarded = any(src(resolve_locals(f, g.node(t).ast)) in ("fd in self._selectables", "fd not in self._selectables")
+                                  and (("not in" in src(resolve_locals(f, g.node(t).ast))) != (lab == "T")) for t, lab in g.edge_guards(l))
+                    ctx.check((bool(hs) and not bad) or guarded, "loop/unregistered-skipped", ctx.construct(q, g.node(l).ast),
                               "an event for a descriptor that is no longer registered is not skipped (KeyError escapes the iteration or "
                               "the stale selectable of the previous event is dispatched again)")
 
@@ -516,12 +563,17 @@ def check(ctx):
         q = Q + "tcp.Connection.doRead"
         lost = [n.id for n in g.nodes if n.kind == "stmt" and isinstance(n.ast, ast.Return) and n.ast.value is not None and "CONNECTION_LOST" in src(n.ast.value)]
         ctx.floor("tcp-read/wouldblock", len(lost), 1)
+        recv0 = calls_with(g, "self.socket.recv")
+        ctx.need(recv0, "self.socket.recv in doRead")
+        hs, facts = _errno_cases(g, recv0[0][0])
+        ctx.need(hs, "except OSError as <name> around recv()")
         for n in lost:
-            ok = any("EWOULDBLOCK" in src(g.node(t).ast) and ((lab == "F" and "==" in src(g.node(t).ast)) or (lab == "T" and "!=" in src(g.node(t).ast)) or
-                                                              (lab == "F" and " in " in src(g.node(t).ast)))
-                     for t, lab in g.edge_guards(n))
-            ctx.check(ok, "tcp-read/wouldblock-is-not-loss", ctx.construct(q, g.node(n).ast),
+            # evaluated on the errno: with EWOULDBLOCK the loss is not reported, with another errno (EPIPE) it is
+            R = reach_under(g, facts(11), srcs=hs)
+            ctx.check(n not in R and g.exit in R, "tcp-read/wouldblock-is-not-loss", ctx.construct(q, g.node(n).ast),
                       "EWOULDBLOCK from recv() is reported as a lost connection")
+        w = must_pass_under(g, facts(32), lost, srcs=hs)
+        ctx.check(w is None, "tcp-read/error-is-loss", q + " | <errno other than EWOULDBLOCK>", "a failing recv() is not reported as CONNECTION_LOST", witness=g.describe(w))
         recvs = calls_with(g, "self.socket.recv")
         ctx.need(recvs, "self.socket.recv in doRead")
         dr = call_nodes(g, "self._dataReceived")
@@ -565,13 +617,24 @@ def check(ctx):
                 ctx.check(value_returned(g, n, top), "tcp-write/count-returned", ctx.construct(q, c) + " | returned",
                           "the byte count accepted by send() is not returned")
         zero = [n.id for n in g.nodes if n.kind == "stmt" and isinstance(n.ast, ast.Return) and const_value_is(n.ast.value, lambda v: v == 0 and v is not False)]
-        for n in zero:
-            ok = any("EWOULDBLOCK" in src(g.node(t).ast) and lab == "T" for t, lab in g.edge_guards(n))
-            ctx.check(ok, "tcp-write/zero-only-wouldblock", ctx.construct(q, g.node(n).ast), "writeSomeData reports 0 bytes for an error other than EWOULDBLOCK/ENOBUFS")
+        send_nodes = sorted({n for c in sends for n in g.ids_of(c)})
+        hs, facts = _errno_cases(g, send_nodes[0]) if send_nodes else ([], None)
+        ctx.need(hs, "except OSError as <name> around send()")
         lost = [n.id for n in g.nodes if n.kind == "stmt" and isinstance(n.ast, ast.Return) and n.ast.value is not None and "CONNECTION_LOST" in src(n.ast.value)]
-        for n in lost:
-            ok = any("EWOULDBLOCK" in src(g.node(t).ast) and lab == "F" for t, lab in g.edge_guards(n))
-            ctx.check(ok, "tcp-write/wouldblock-is-not-loss", ctx.construct(q, g.node(n).ast), "EWOULDBLOCK from send() is reported as a lost connection")
+        for code, name in ((11, "EWOULDBLOCK"), (105, "ENOBUFS")):
+            R = reach_under(g, facts(code), srcs=hs)
+            w = must_pass_under(g, facts(code), zero, srcs=hs)
+            for n in lost:
+                ctx.check(n not in R, "tcp-write/wouldblock-is-not-loss", ctx.construct(q, g.node(n).ast) + (" | ENOBUFS" if code == 105 else ""),
+                          f"{name} from send() is reported as a lost connection")
+            ctx.check(bool(zero) and w is None, "tcp-write/wouldblock-means-zero", q + f" | <{name}>", f"{name} from send() does not make writeSomeData report 0 bytes accepted",
+                      witness=g.describe(w))
+        R = reach_under(g, facts(32), srcs=hs)
+        for n in zero:
+            ctx.check(n not in R, "tcp-write/zero-only-wouldblock", ctx.construct(q, g.node(n).ast), "writeSomeData reports 0 bytes for an error other than EWOULDBLOCK/ENOBUFS")
+        w = must_pass_under(g, facts(32), lost, srcs=hs)
+        ctx.check(bool(lost) and w is None, "tcp-write/error-is-loss", q + " | <errno other than EWOULDBLOCK/ENOBUFS>", "a failing send() is not reported as CONNECTION_LOST",
+                  witness=g.describe(w))
         ctx.floor("tcp-write", len(zero) + len(lost), 2)
 
     with ctx.section("tcp Connection._closeWriteConnection"):
@@ -679,6 +742,15 @@ MUTANTS = [
     Mutant("tcp-helper-deletes-guard-after-callout", TCP, "        protocol = self.protocol\n        del self.protocol\n        del self.socket\n        del self.fileno\n        protocol.connectionLost(reason)\n",
            "        protocol = self.protocol\n        protocol.connectionLost(reason)\n        self._forget()\n\n    def _forget(self):\n        del self.protocol\n        del self.socket\n        del self.fileno\n",
            expect_rule="tcp-lost/guard-cleared-before-callout"),
+    Mutant("select-written-out-sets-crossed", SEL,
+           "        for selectables, method, fdset in (\n            (r, \"doRead\", self._reads),\n            (w, \"doWrite\", self._writes),\n        ):\n            for selectable in selectables:\n"
+           "                # if this was disconnected in another thread, kill it.\n                # ^^^^ --- what the !@#*?  serious!  -exarkun\n"
+           "                if selectable not in fdset:  # type:ignore[operator]\n                    continue\n                # This for pausing input when we're not ready for more.\n"
+           "                _logrun(selectable, _drdw, selectable, method)\n",
+           "        for selectable in r:\n            if selectable in self._reads:\n                _logrun(selectable, _drdw, selectable, \"doRead\")\n"
+           "        for selectable in w:\n            if selectable in self._reads:\n                _logrun(selectable, _drdw, selectable, \"doWrite\")\n", expect_rule="loop/select-rows"),
+    Mutant("tcp-send-enobufs-is-loss", TCP, "            if se.args[0] in (EWOULDBLOCK, ENOBUFS):\n                return 0\n", "            if se.args[0] == EWOULDBLOCK:\n                return 0\n",
+           expect_rule="tcp-write/"),
     Mutant("poll-stale-selectable-dispatched", POLL, "            except KeyError:\n                # Handles the infrequent case where one selectable's\n                # handler disconnects another.\n                continue\n",
            "            except KeyError:\n                pass\n", expect_rule="loop/unregistered-skipped"),
 ]
@@ -699,5 +771,22 @@ SILENT = [
            "        protocol = self._forget()\n        protocol.connectionLost(reason)\n\n    def _forget(self):\n        protocol = self.protocol\n        del self.protocol\n        del self.socket\n        del self.fileno\n        return protocol\n"),
     Silent("select-dispatch-guard-clause", SEL, "        if why:\n            self._disconnectSelectable(selectable, why, method == \"doRead\")",
            "        if not why:\n            return\n        wasRead = method == \"doRead\"\n        self._disconnectSelectable(selectable, why, wasRead)"),
+    Silent("tcp-send-fatal-errno-first", TCP, "            if se.args[0] in (EWOULDBLOCK, ENOBUFS):\n                return 0\n            else:\n                return main.CONNECTION_LOST\n",
+           "            code = se.args[0]\n            if code not in (EWOULDBLOCK, ENOBUFS):\n                return main.CONNECTION_LOST\n            return 0\n"),
+    Silent("select-dispatch-written-out", SEL,
+           "        for selectables, method, fdset in (\n            (r, \"doRead\", self._reads),\n            (w, \"doWrite\", self._writes),\n        ):\n            for selectable in selectables:\n"
+           "                # if this was disconnected in another thread, kill it.\n                # ^^^^ --- what the !@#*?  serious!  -exarkun\n"
+           "                if selectable not in fdset:  # type:ignore[operator]\n                    continue\n                # This for pausing input when we're not ready for more.\n"
+           "                _logrun(selectable, _drdw, selectable, method)\n",
+           "        readers = self._reads\n        for selectable in r:\n            if selectable in readers:\n                _logrun(selectable, _drdw, selectable, \"doRead\")\n"
+           "        for selectable in w:\n            if selectable not in self._writes:\n                continue\n            _logrun(selectable, _drdw, selectable, \"doWrite\")\n"),
+    Silent("polllike-clean-close-branches-swapped", PB,
+           "            if fd in self._reads:\n                # If we were reading from the descriptor then this is a\n                # clean shutdown.  We know there are no read events pending\n"
+           "                # because we just checked above.  It also might be a\n                # half-close (which is why we have to keep track of inRead).\n"
+           "                inRead = True\n                why = CONNECTION_DONE\n            else:\n                # If we weren't reading, this is an error shutdown of some\n                # sort.\n                why = CONNECTION_LOST\n",
+           "            if fd not in self._reads:\n                why = CONNECTION_LOST\n            else:\n                inRead = True\n                why = CONNECTION_DONE\n"),
+    Silent("poll-lookup-by-membership-test", POLL, "            try:\n                selectable = self._selectables[fd]\n            except KeyError:\n                # Handles the infrequent case where one selectable's\n"
+           "                # handler disconnects another.\n                continue\n",
+           "            known = self._selectables\n            if fd not in known:\n                continue\n            selectable = known[fd]\n"),
     Silent("polllike-locals-renamed", PB, "                    if not why and event & self._POLL_OUT:", "                    if (not why) and (event & self._POLL_OUT):"),
 ]
